@@ -16,6 +16,7 @@
 """Utils for min/max based quantization."""
 
 from collections.abc import Sequence
+import dataclasses
 import enum
 from typing import Any, Optional
 import numpy as np
@@ -251,6 +252,20 @@ def _get_tensor_transformation_params_wrapper(
         tensor_min_max,
         tensor_quant_config,
         tensor_content=tensor_data,
+    )
+  elif (
+      is_constant
+      and isinstance(quant_params, qtyping.UniformQuantParams)
+      and quant_params.quantized_data is None
+  ):
+    # A constant that receives parameters from another tensor (e.g., constant
+    # input of an op with same-as-output-scale constraint) still needs its
+    # quantized values, otherwise its float bytes stay in the buffer.
+    quant_params = dataclasses.replace(
+        quant_params,
+        quantized_data=uniform_quantize_tensor.uniform_quantize(
+            tensor_data, quant_params
+        ),
     )
   return get_tensor_transformation_params(
       tensor_name,
